@@ -618,9 +618,11 @@ def main(argv):
         detail = {"kind": c["kind"], "planes": c["planes"], "K": c["K"], "exc": c["exc"], "off": c["off"],
                   "subset": c["sub"] if len(c["sub"]) < len(c["F"]) else "all", **d}
         dev = None
-        if c["kind"] == "cap" and clause == "capped_volumes_do_not_add_up" and d["seed"].split("/")[0] in NONCONVEX:
+        if c["kind"] == "cap" and d["seed"].split("/")[0] in NONCONVEX and \
+                (clause == "capped_volumes_do_not_add_up" or clause.startswith("raised_")):
             # the section polygon of a non-convex solid is pinched where the plane passes through a vertex;
-            # edges_to_polygons / repair_invalid then drops or garbles a cap (depends on float noise)
+            # edges_to_polygons / repair_invalid then drops or garbles a cap (depends on float noise): the
+            # volumes do not add up, or the garbled polygon makes the triangulation engine raise
             pl = c["planes"][0]
             if any(2 * sum(a * b for a, b in zip(pl["n"], v)) == pl["c2"] for v in c["V"]):
                 dev = "CapOfSectionThroughVertexNonConvex"
